@@ -871,3 +871,62 @@ func sortedKeys(m map[string]QueryResult) []string {
 	sort.Strings(ks)
 	return ks
 }
+
+// enumerateModels lists all models of (assumptions ∧ formula) projected on vars
+// (bit-vector / Bool variables only), by iterated blocking clauses.
+func enumerateModels(b *Batch, formula *Term, vars []*Term, kind string, capSec int, limit int) ([]map[string]string, bool) {
+	em := newEmitter()
+	for _, a := range b.Assumptions {
+		em.Define(a)
+	}
+	for _, v := range vars {
+		em.Define(v)
+	}
+	em.Define(formula)
+	for _, a := range b.Assumptions {
+		fmt.Fprintf(&em.sb, "(assert %s)\n", em.ref(a))
+	}
+	fmt.Fprintf(&em.sb, "(assert %s)\n", em.ref(formula))
+	s, err := startSolver(kind)
+	if err != nil {
+		return nil, false
+	}
+	defer s.Kill()
+	if _, err := s.send(solverPrelude(kind, capSec)+em.sb.String(), time.Duration(capSec+60)*time.Second); err != nil {
+		return nil, false
+	}
+	var names []string
+	for _, v := range vars {
+		names = append(names, smtVarName(v.s))
+	}
+	var out []map[string]string
+	for len(out) < limit {
+		lines, err := s.send("(check-sat)", time.Duration(capSec+20)*time.Second)
+		if err != nil {
+			return out, false
+		}
+		v, _ := parseVerdict(lines)
+		if v == VUnsat {
+			return out, true
+		}
+		if v != VSat {
+			return out, false
+		}
+		ml, err := s.send("(get-value ("+strings.Join(names, " ")+"))", 60*time.Second)
+		if err != nil {
+			return out, false
+		}
+		m := parseModel(strings.Join(ml, "\n"))
+		out = append(out, m)
+		var sb strings.Builder
+		sb.WriteString("(assert (or")
+		for _, vr := range vars {
+			fmt.Fprintf(&sb, " (not (= %s %s))", smtVarName(vr.s), m[vr.s])
+		}
+		sb.WriteString("))")
+		if _, err := s.send(sb.String(), 30*time.Second); err != nil {
+			return out, false
+		}
+	}
+	return out, false
+}
